@@ -39,7 +39,7 @@ P = dict(
                 "evaluated by gcc 12 (limits/property/transformation families also with plain char unsigned, -funsigned-char; thorough: also by clang++-16 and under -std=c++23), modulo the listed findings; it is not a proof for types "
                 "outside the zoo."),
     level_note=("trusts libstdc++ 12 <type_traits>/<concepts>/<limits>/<ratio>/<cstdint> as evaluated by gcc 12.2 (thorough: clang 16) as the oracle; "
-                "scope is the finite zoo (280 types, 1936 ordered pairs of a 44-type mini zoo + 687 adversarial conversion pairs, 33+16 ratios) - every cell of it is evaluated, nothing is sampled"),
+                "scope is the finite zoo (319 types, 2304 ordered pairs of a 48-type mini zoo + 1199 adversarial pairs, ordered triples/quadruples of the n-ary zoo, invocation cross product, asymmetric witnesses, 33+16 ratios) - every cell of it is evaluated, nothing is sampled"),
     technique="differential monitoring of compile-time values through generated constexpr table programs with cell-isolating compile (gcc 12; clang 16 and -std=c++23 in thorough)",
     design_ref="DESIGN.md section 4 C15, section 1.1 'Cell-isolating compile'",
     rule=("One evaluation = one table cell on which the standard defines a result: (trait or concept or numeric_limits member or ratio operation) x "
